@@ -125,6 +125,7 @@ static void run_cmd(const sim::Cmd &c, sim::Out &out)
   Listener *l = new Listener(*s);
   int units_read = 0;
   bool ended = false;
+  bool primary_nested = false;
   int verdict = -1; // of the whole history: 1 = every solve() succeeded, 0 = a negative answer, -1 = none (discarded, violation)
   std::string verdict_how;
   auto negative = [&](const std::string &how)
@@ -234,6 +235,7 @@ static void run_cmd(const sim::Cmd &c, sim::Out &out)
     }
     Checker ck(*s, b.m, *l);
     ck.check_all(units_read);
+    primary_nested = ck.nested_zero_length;
     for (auto &p : ck.cnt.c)
       cnt.inc(p.first, p.second);
     for (auto *f : l->flaws)
@@ -301,6 +303,7 @@ static void run_cmd(const sim::Cmd &c, sim::Out &out)
         continue;
       cnt.inc("p7c.variants_run");
       log.ev("variant " + std::to_string(k) + " -> " + std::to_string(v2));
+      bool witness_nested = primary_nested;
       if (v2 == 1)
       { // only a solution that checks is a witness
         Checker ck2(*s2, b.m, *l2);
@@ -310,6 +313,7 @@ static void run_cmd(const sim::Cmd &c, sim::Out &out)
           cnt.inc("p7c.variant_solution_does_not_check");
           continue;
         }
+        witness_nested = ck2.nested_zero_length;
       }
       if (v2 == verdict)
       {
@@ -323,6 +327,8 @@ static void run_cmd(const sim::Cmd &c, sim::Out &out)
         msg = "the planner answered '" + verdict_how + "' but the same problem, " + how_variant + ", is solved and that solution checks | problem: " + whole;
       else
         msg = "the problem was solved (and the solution checks) but the same problem, " + how_variant + ", is answered '" + how2 + "' | problem: " + whole;
+      if (witness_nested)
+        msg = "[the witness places a zero-length atom strictly inside another atom of the same state variable] " + msg;
       PViolation v{"P7", "P7.equivalent_formulations_differ", msg};
       (enabled_for(prop, v) ? viols : others).push_back(v);
     }
